@@ -297,7 +297,9 @@ def dps_to_prec(n):
 class _MpCtx:
     @property
     def dps(self):
-        raise NotImplementedError
+        if PREC.mp_prec is None:
+            raise NotImplementedError("reading the ambient mp.dps")
+        return builtins.max(1, builtins.int(builtins.round(builtins.int(PREC.mp_prec) / 3.3219280948873626) - 1))
 
     @dps.setter
     def dps(self, n):
@@ -312,12 +314,35 @@ class _MpCtx:
         PREC.mp_prec = builtins.int(n)
 
 
+class _WorkPrec:
+    def __init__(self, prec):
+        self.new = prec
+
+    def __enter__(self):
+        self.old = PREC.mp_prec
+        PREC.mp_prec = self.new
+
+    def __exit__(self, *a):
+        PREC.mp_prec = self.old
+        return False
+
+
 class MpmathShim:
     """Model of the few mpmath entry points ebb_calc uses.  Values are exact rationals (SymQ /
     SymFrac / SymRoot) tagged kind='mp'; PrecisionState tracks the precision in force."""
 
     def __init__(self):
         self.mp = _MpCtx()
+        self.mp.workdps = self.workdps
+        self.mp.workprec = self.workprec
+
+    @staticmethod
+    def workdps(n):
+        return _WorkPrec(dps_to_prec(n))
+
+    @staticmethod
+    def workprec(n):
+        return _WorkPrec(builtins.int(n))
 
     def mpf(self, x=0):
         if isinstance(x, str):
